@@ -746,10 +746,39 @@ theorem Inv.rep_absLog {s : St K V} (h : Inv s) : Rep s (absLog s) := by
 
 /-! ## histories -/
 
-/-- the quantifier of the property: key tuples are non-empty -/
+/-- the quantifier of the property: key tuples are non-empty; an assignment whose key tuple holds
+    an unhashable key is outside the refinement (as the code is today it fails half-way, see
+    `setBadKey_sim`: the three maps stay coherent but keys lose their values) -/
 def Op.valid : Op K V → Prop
   | .set keys _ => keys ≠ []
+  | .setBadKey _ _ _ => False
   | _ => True
+
+/-- nothing the coherence invariant needs is excluded: only the empty key tuple -/
+def Op.nonEmpty : Op K V → Prop
+  | .set keys _ => keys ≠ []
+  | _ => True
+
+/-- the deletion loop over keys that hold no value does nothing -/
+theorem delLoop_unbound (p : List K) (s : St K V) (h : ∀ k ∈ p, dhas s.keysDict k = false) :
+    delLoop s p = some s := by
+  induction p with
+  | nil => rfl
+  | cons k r ih =>
+    have hk := h k List.mem_cons_self
+    simp only [delLoop, hk, Bool.false_eq_true, if_false]
+    exact ih (fun x hx => h x (List.mem_cons_of_mem _ hx))
+
+/-- an assignment whose key tuple holds an unhashable key, as the code is today: the exception is
+    raised, the three maps are still coherent, and they represent the map WITHOUT the keys that
+    stood in front of the unhashable one (`badKeyPrefix`) -/
+theorem setBadKey_sim {s : St K V} {l : Log K V} (h : Rep s l) (before after : List K) (v : V) :
+    Rep (step s (.setBadKey before after v)).1
+        (l.filter (fun e => e.1 ∉ badKeyPrefix s before after v)) ∧
+      (step s (.setBadKey before after v)).2 = .rejected := by
+  obtain ⟨s1, h1, h2⟩ := delLoop_sim (badKeyPrefix s before after v) h
+  simp only [step, setitemBadKey, h1]
+  exact ⟨h2, trivial⟩
 
 theorem step_sim {s : St K V} {l : Log K V} (h : Rep s l) (op : Op K V) (hv : Op.valid op) :
     Rep (step s op).1 (specStep l op).1 ∧ (step s op).2 = (specStep l op).2 := by
@@ -771,6 +800,23 @@ theorem step_sim {s : St K V} {l : Log K V} (h : Rep s l) (op : Op K V) (hv : Op
   | key2keys k => exact ⟨h, by simp only [step, specStep, h.key2keys_eq]⟩
   | value2keys v => exact ⟨h, by simp only [step, specStep, h.groups]⟩
   | len => exact ⟨h, by simp only [step, specStep, h.len_eq]⟩
+  | setUnhashable keys => exact ⟨h, rfl⟩
+  | setBadKey before after v => exact absurd hv (by simp [Op.valid])
+  | badOperand => exact ⟨h, rfl⟩
+
+/-- coherence survives EVERY operation, the half-way failing one included -/
+theorem step_inv_any {s : St K V} (h : Inv s) (op : Op K V) (hv : Op.nonEmpty op) : Inv (step s op).1 := by
+  cases op with
+  | setBadKey before after v => exact (setBadKey_sim h.rep_absLog before after v).1.inv
+  | set keys v => exact (step_sim h.rep_absLog (.set keys v) hv).1.inv
+  | del k => exact (step_sim h.rep_absLog (.del k) trivial).1.inv
+  | get k => exact h
+  | getT t => exact h
+  | key2keys k => exact h
+  | value2keys v => exact h
+  | len => exact h
+  | setUnhashable keys => exact h
+  | badOperand => exact h
 
 theorem run_sim (ops : List (Op K V)) : ∀ {s : St K V} {l : Log K V}, Rep s l →
     (∀ op ∈ ops, Op.valid op) →
@@ -827,5 +873,8 @@ theorem last_assigned_spec (k : K) (ops : List (Op K V)) : ∀ l : Log K V,
     | key2keys _ => simp only [specRun, specStep, lastAssigned, ih]
     | value2keys _ => simp only [specRun, specStep, lastAssigned, ih]
     | len => simp only [specRun, specStep, lastAssigned, ih]
+    | setUnhashable _ => simp only [specRun, specStep, lastAssigned, ih]
+    | setBadKey _ _ _ => simp only [specRun, specStep, lastAssigned, ih]
+    | badOperand => simp only [specRun, specStep, lastAssigned, ih]
 
 end ALV.C15
